@@ -49,10 +49,20 @@ def src_root():
     return os.environ.get("VERIF_SRC") or "/repo/src"
 
 
-@functools.lru_cache(maxsize=None)
+_INTS = {}
+_CASES = {}
+
+
 def source_ints(sub="chuk_mcp", root=None):
-    """all integers 2..MAX_SIZE that appear (possibly folded, floats rounded both ways) in root/sub/**/*.py"""
+    """all integers 2..MAX_SIZE that appear (possibly folded, floats rounded both ways) in root/sub/**/*.py
+    (cached in a plain dict: the scan must happen at import time of a harness, not inside a traced path)"""
     root = root or src_root()
+    if (sub, root) not in _INTS:
+        _INTS[(sub, root)] = _scan(sub, root)
+    return _INTS[(sub, root)]
+
+
+def _scan(sub, root):
     out = set()
     base = os.path.join(root, sub)
     for dp, _dn, fns in os.walk(base):
@@ -77,12 +87,16 @@ def source_ints(sub="chuk_mcp", root=None):
 def size_cases(limit=None, sub="chuk_mcp", extra=()):
     """sorted sizes to split on: {0,1,2} + {c-1, c, c+1} for every constant of the source (<= limit)"""
     lim = MAX_SIZE if limit is None else limit
+    key = (lim, sub, tuple(extra))
+    if key in _CASES:
+        return _CASES[key]
     s = {0, 1, 2}
     for c in tuple(source_ints(sub)) + tuple(extra):
         for w in (c - 1, c, c + 1):
             if 0 <= w <= lim:
                 s.add(w)
-    return tuple(sorted(s))
+    _CASES[key] = tuple(sorted(s))
+    return _CASES[key]
 
 
 def snap(n, cases):
